@@ -56,13 +56,13 @@ def tt_spec(draw, N=None, M=None, dmin=1, dmax=5, sizes=SIZES, rmax=4, dts=DTYPE
 
 
 def scalar_value(kind_int=True):
-    return st.sampled_from([0, 1, -1, 2, 3, -2] if kind_int else [0.0, 1.0, -1.0, 0.5, 2.0, -1.5, 3.0, 0.25])
+    return st.sampled_from([0, 1, -1, 2, 3, -2] if kind_int else [0.0, 1.0, -1.0, 0.5, 2.0, -1.5, 3.0, 0.25, 0.3, -0.1, 1.0 / 3.0])
 
 
 @st.composite
 def scalar(draw, kinds):
     kind = draw(st.sampled_from(kinds))
-    if kind in ("int", "npint"):
+    if kind in ("int", "npint", "t0d_i64"):
         v = draw(scalar_value(True))
     elif kind == "complex":
         v = [draw(scalar_value(False)), draw(scalar_value(False))]
@@ -93,6 +93,10 @@ def build_scalar(s, dt):
         return torch.tensor(v, dtype=DT[dt])
     if k == "t1":
         return torch.tensor([v], dtype=DT[dt])
+    if k == "t0d_i64":          # 0-d integer tensor: does not take part in type promotion with a dimensioned float tensor
+        return torch.tensor(int(v), dtype=torch.int64)
+    if k == "t0d_other":        # 0-d real tensor of the *other* precision (same category: no promotion of the TT's dtype)
+        return torch.tensor(float(v), dtype=torch.float32 if dt in ("f64", "c128") else torch.float64)
     raise ValueError(k)
 
 
@@ -101,3 +105,20 @@ def scalar_as_complex(s):
     if k == "complex":
         return complex(v[0], v[1])
     return float(v)
+
+
+def is_dyadic(s):
+    """True if the scalar is exactly representable with a few bits (then integer payloads stay exact under +,-,*)."""
+    import math
+    vals = s["value"] if isinstance(s["value"], list) else [s["value"]]
+    if s["kind"] == "t0d_other":
+        return all(float(v) * 64 == math.floor(float(v) * 64) for v in vals)
+    return all(float(v) * 64 == math.floor(float(v) * 64) for v in vals)
+
+
+def scalar_exact_value(s, dt):
+    """the value the library actually receives, as python float/complex (a float32 0-d tensor carries the rounded value)"""
+    import torch
+    if s["kind"] == "t0d_other" and dt in ("f64", "c128"):
+        return float(torch.tensor(float(s["value"]), dtype=torch.float32))
+    return scalar_as_complex(s)
